@@ -11,8 +11,12 @@ package floatingip
 //@ ghost StorePolicy mmap[string]mint
 //@ ghost StoreNode mmap[string]string
 //@ ghost StoreUid mmap[string]string
+// fault budget: a store call may fail only while faults > 0 and consumes one; `old(faults) <= 1`
+// expresses the "any single API call fails" quantifier where a clause needs it.
+//@ ghost faults mint
 
 //@ pure ipstr(ip []byte) string = ipString(ip)
+//@ pure storeSame() bool = StoreDom == old(StoreDom) && forall k string :: StoreDom[k] ==> StoreKey[k] == old(StoreKey[k]) && StorePolicy[k] == old(StorePolicy[k]) && StoreNode[k] == old(StoreNode[k]) && StoreUid[k] == old(StoreUid[k])
 //@ pure storeUnchanged() bool = StoreDom == old(StoreDom) && StoreKey == old(StoreKey) && StorePolicy == old(StorePolicy) && StoreNode == old(StoreNode) && StoreUid == old(StoreUid)
 
 // ---- table invariant (I1-I3 of DESIGN.md) ----
@@ -35,19 +39,20 @@ package floatingip
 // Each call either fails cleanly (error, Store unchanged) or succeeds with the obvious effect.
 //@ func [C01,C05,C08,C09] (*crdIpam).createFloatingIP trusted
 //@   requires allocated != nil
-//@   modifies StoreDom, StoreKey, StorePolicy, StoreNode, StoreUid
-//@   ensures result != nil ==> storeUnchanged() && result != ErrNoEnoughIP
+//@   modifies StoreDom, StoreKey, StorePolicy, StoreNode, StoreUid, faults
+//@   ensures result != nil ==> storeUnchanged() && result != ErrNoEnoughIP && old(faults) > 0 && faults == old(faults) - 1
+//@   ensures result == nil ==> faults == old(faults)
 //@   ensures result == nil ==> !old(StoreDom)[ipstr(allocated.IP)]
 //@   ensures result == nil ==> StoreDom == old(StoreDom)[ipstr(allocated.IP) := true] && StoreKey == old(StoreKey)[ipstr(allocated.IP) := allocated.Key] && StorePolicy == old(StorePolicy)[ipstr(allocated.IP) := allocated.Policy] && StoreNode == old(StoreNode)[ipstr(allocated.IP) := allocated.NodeName] && StoreUid == old(StoreUid)[ipstr(allocated.IP) := allocated.PodUid]
 //@ func [C01,C05,C08,C09] (*crdIpam).deleteFloatingIP trusted
-//@   modifies StoreDom
-//@   ensures result != nil ==> StoreDom == old(StoreDom)
-//@   ensures result == nil ==> StoreDom == old(StoreDom)[name := false]
+//@   modifies StoreDom, faults
+//@   ensures result != nil ==> StoreDom == old(StoreDom) && old(faults) > 0 && faults == old(faults) - 1
+//@   ensures result == nil ==> StoreDom == old(StoreDom)[name := false] && faults == old(faults)
 //@ func [C01,C05] (*crdIpam).updateFloatingIP trusted
 //@   requires toUpdate != nil
-//@   modifies StoreKey, StorePolicy, StoreNode, StoreUid
-//@   ensures result != nil ==> storeUnchanged()
-//@   ensures result == nil ==> old(StoreDom)[ipstr(toUpdate.IP)]
+//@   modifies StoreKey, StorePolicy, StoreNode, StoreUid, faults
+//@   ensures result != nil ==> storeUnchanged() && old(faults) > 0 && faults == old(faults) - 1
+//@   ensures result == nil ==> old(StoreDom)[ipstr(toUpdate.IP)] && faults == old(faults)
 //@   ensures result == nil ==> StoreKey == old(StoreKey)[ipstr(toUpdate.IP) := toUpdate.Key] && StorePolicy == old(StorePolicy)[ipstr(toUpdate.IP) := toUpdate.Policy] && StoreNode == old(StoreNode)[ipstr(toUpdate.IP) := toUpdate.NodeName] && StoreUid == old(StoreUid)[ipstr(toUpdate.IP) := toUpdate.PodUid]
 
 // small constructors/mutators are inlined at their call sites (their real bodies are executed)
@@ -67,7 +72,7 @@ package floatingip
 //@   ensures [C01,C05:release-frees-entry] err == nil ==> !(ipS in ci.allocatedFIPs) && ipS in ci.unallocatedFIPs && ci.unallocatedFIPs[ipS] == old(ci.allocatedFIPs[ipS]) && !StoreDom[ipS]
 //@   ensures [C01,C04:release-frame] tablesSameExcept(ci, ipS) && entriesSameExcept(old(ci.allocatedFIPs[ipS])) && ciFieldsSame(ci)
 //@   ensures [C05,C01:release-failure-atomic] err != nil ==> tablesSame(ci) && storeUnchanged() && sameEntry(old(ci.allocatedFIPs[ipS]))
-//@   modifies map(ci.allocatedFIPs), map(ci.unallocatedFIPs), FloatingIP.Key, FloatingIP.Policy, FloatingIP.UpdatedAt, FloatingIP.NodeName, FloatingIP.PodUid, FloatingIP.Labels, StoreDom
+//@   modifies map(ci.allocatedFIPs), map(ci.unallocatedFIPs), FloatingIP.Key, FloatingIP.Policy, FloatingIP.UpdatedAt, FloatingIP.NodeName, FloatingIP.PodUid, FloatingIP.Labels, StoreDom, faults
 
 //@ pure attrApplied(f *FloatingIP, key string, attr Attr) bool = f.Key == key && f.Policy == attr.Policy && f.NodeName == attr.NodeName && f.PodUid == attr.Uid
 
@@ -82,7 +87,7 @@ package floatingip
 //@   ensures [C05:updateattr-applies] err == nil ==> attrApplied(ci.allocatedFIPs[ipS], key, attr)
 //@   ensures [C01,C04:updateattr-frame] tablesSame(ci) && entriesSameExcept(old(ci.allocatedFIPs[ipS])) && ciFieldsSame(ci)
 //@   ensures [C05,C01:updateattr-failure-atomic] err != nil ==> storeUnchanged() && (old(ipS in ci.allocatedFIPs) ==> sameEntry(old(ci.allocatedFIPs[ipS])))
-//@   modifies FloatingIP.Key, FloatingIP.Policy, FloatingIP.UpdatedAt, FloatingIP.NodeName, FloatingIP.PodUid, StoreKey, StorePolicy, StoreNode, StoreUid, fresh FloatingIP.IP, fresh FloatingIP.pool, fresh FloatingIP.Labels
+//@   modifies FloatingIP.Key, FloatingIP.Policy, FloatingIP.UpdatedAt, FloatingIP.NodeName, FloatingIP.PodUid, StoreKey, StorePolicy, StoreNode, StoreUid, fresh FloatingIP.IP, fresh FloatingIP.pool, fresh FloatingIP.Labels, faults
 
 // ---- AllocateSpecificIP: only a free IP; relies on the store's create conflict between its two critical sections ----
 //@ func [C01,C05,C09,C19] (*crdIpam).AllocateSpecificIP
@@ -95,7 +100,7 @@ package floatingip
 //@   ensures [C01,C05:specific-allocates] err == nil ==> ipS in ci.allocatedFIPs && !(ipS in ci.unallocatedFIPs) && attrApplied(ci.allocatedFIPs[ipS], key, attr) && fresh(ci.allocatedFIPs[ipS])
 //@   ensures [C01:specific-frame] tablesSameExcept(ci, ipS) && (forall p *FloatingIP :: allocated(p) ==> sameEntry(p)) && ciFieldsSame(ci)
 //@   ensures [C05,C01:specific-failure-atomic] err != nil ==> tablesSame(ci) && storeUnchanged()
-//@   modifies map(ci.allocatedFIPs), map(ci.unallocatedFIPs), fresh FloatingIP.*, StoreDom, StoreKey, StorePolicy, StoreNode, StoreUid
+//@   modifies map(ci.allocatedFIPs), map(ci.unallocatedFIPs), fresh FloatingIP.*, StoreDom, StoreKey, StorePolicy, StoreNode, StoreUid, faults
 
 // ---- handleFIPAssign / handleFIPUnassign: watch handlers for administrator-made reservations ----
 // The object is already in the store when the add event arrives, so `synced` is not part of
@@ -121,7 +126,7 @@ package floatingip
 //@   ensures [C01,C04:reserve-only-own-key] forall p *FloatingIP :: allocated(p) && old(p.Key) != oldK ==> sameEntry(p)
 //@   ensures [C02:reserve-rekeys] forall p *FloatingIP :: allocated(p) && old(p.Key) == oldK ==> (p.Key == oldK || p.Key == newK) && p.IP == old(p.IP) && p.pool == old(p.pool)
 //@   ensures [C02:reserve-all-on-success] result1 == nil && oldK != newK ==> forall k string :: k in ci.allocatedFIPs ==> ci.allocatedFIPs[k].Key != oldK
-//@   modifies FloatingIP.Key, FloatingIP.Policy, FloatingIP.UpdatedAt, FloatingIP.NodeName, FloatingIP.PodUid, fresh FloatingIP.IP, fresh FloatingIP.pool, fresh FloatingIP.Labels, StoreKey, StorePolicy, StoreNode, StoreUid
+//@   modifies FloatingIP.Key, FloatingIP.Policy, FloatingIP.UpdatedAt, FloatingIP.NodeName, FloatingIP.PodUid, fresh FloatingIP.IP, fresh FloatingIP.pool, fresh FloatingIP.Labels, StoreKey, StorePolicy, StoreNode, StoreUid, faults
 //@   loop 0 invariant held[ptr(ci.cacheLock)] == 2 && inv(ci) && synced(ci) && tablesSame(ci) && ciFieldsSame(ci) && StoreDom == old(StoreDom)
 //@   loop 0 invariant forall p *FloatingIP :: allocated(p) && old(p.Key) != oldK ==> sameEntry(p)
 //@   loop 0 invariant forall p *FloatingIP :: allocated(p) && old(p.Key) == oldK ==> (p.Key == oldK || p.Key == newK) && p.IP == old(p.IP) && p.pool == old(p.pool)
@@ -139,7 +144,7 @@ package floatingip
 //@   ensures [C01:rekey-frame] tablesSame(ci) && ciFieldsSame(ci)
 //@   ensures [C02,C01:rekey-one-prefix-entry] result == nil ==> exists p *FloatingIP :: allocated(p) && inTable(ci.allocatedFIPs, p) && old(p.Key) == oldK && hasSubnet(p.pool, subnet) && attrApplied(p, newK, attr) && p.IP == old(p.IP) && p.pool == old(p.pool) && entriesSameExcept(p) && (forall k string :: k in ci.allocatedFIPs && old(ci.allocatedFIPs[k].Key) == oldK && hasSubnet(ci.allocatedFIPs[k].pool, subnet) ==> unixNano(old(ci.allocatedFIPs[k].UpdatedAt)) <= unixNano(old(p.UpdatedAt)) || unixNano(old(ci.allocatedFIPs[k].UpdatedAt)) <= 0)
 //@   ensures [C05,C01:rekey-failure-atomic] result != nil ==> storeUnchanged() && forall p *FloatingIP :: allocated(p) ==> sameEntry(p)
-//@   modifies FloatingIP.Key, FloatingIP.Policy, FloatingIP.UpdatedAt, FloatingIP.NodeName, FloatingIP.PodUid, fresh FloatingIP.IP, fresh FloatingIP.pool, fresh FloatingIP.Labels, StoreKey, StorePolicy, StoreNode, StoreUid
+//@   modifies FloatingIP.Key, FloatingIP.Policy, FloatingIP.UpdatedAt, FloatingIP.NodeName, FloatingIP.PodUid, fresh FloatingIP.IP, fresh FloatingIP.pool, fresh FloatingIP.Labels, StoreKey, StorePolicy, StoreNode, StoreUid, faults
 //@   loop 0 invariant latest == nil ==> recordTs == 0
 //@   loop 0 invariant latest != nil ==> allocated(latest) && inTable(ci.allocatedFIPs, latest) && latest.Key == oldK && hasSubnet(latest.pool, subnet) && recordTs == unixNano(latest.UpdatedAt) && recordTs > 0
 //@   loop 0 invariant forall k string :: visited[k] && k in ci.allocatedFIPs && ci.allocatedFIPs[k].Key == oldK && hasSubnet(ci.allocatedFIPs[k].pool, subnet) ==> unixNano(ci.allocatedFIPs[k].UpdatedAt) <= recordTs
@@ -157,6 +162,64 @@ package floatingip
 //@   ensures [C01,C06,C09:alloc-only-free-routable] result1 == nil ==> exists k string :: old(k in ci.unallocatedFIPs) && old(hasSubnet(ci.unallocatedFIPs[k].pool, netstr(nodeSubnet))) && k in ci.allocatedFIPs && !(k in ci.unallocatedFIPs) && attrApplied(ci.allocatedFIPs[k], key, attr) && fresh(ci.allocatedFIPs[k]) && ci.allocatedFIPs[k].pool == old(ci.unallocatedFIPs[k].pool) && ci.allocatedFIPs[k].IP == old(ci.unallocatedFIPs[k].IP) && tablesSameExcept(ci, k)
 //@   ensures [C06:alloc-noip-means-none-routable] result1 == ErrNoEnoughIP && nodeSubnet != nil ==> forall k string :: k in ci.unallocatedFIPs ==> !hasSubnet(ci.unallocatedFIPs[k].pool, netstr(nodeSubnet))
 //@   ensures [C05,C01:alloc-failure-atomic] result1 != nil ==> tablesSame(ci) && storeUnchanged()
-//@   modifies map(ci.allocatedFIPs), map(ci.unallocatedFIPs), fresh FloatingIP.*, StoreDom, StoreKey, StorePolicy, StoreNode, StoreUid, fresh elemsof(byte)
+//@   modifies map(ci.allocatedFIPs), map(ci.unallocatedFIPs), fresh FloatingIP.*, StoreDom, StoreKey, StorePolicy, StoreNode, StoreUid, fresh elemsof(byte), faults
 //@   loop 0 invariant held[ptr(ci.cacheLock)] == 2 && inv(ci) && synced(ci) && tablesSame(ci) && storeUnchanged() && ciFieldsSame(ci) && allEntriesSame()
 //@   loop 0 invariant forall k string :: visited[k] && k in ci.unallocatedFIPs ==> !hasSubnet(ci.unallocatedFIPs[k].pool, nodeSubnetStr)
+
+// ---- AllocateInSubnetsAndIPRange (C08): one IP per requested range, all or nothing ----
+//@ uninterp ipv4str(v mint) string
+//@ pure eligible(ci *crdIpam, s string, subnet string) bool = s in ci.unallocatedFIPs && hasSubnet(ci.unallocatedFIPs[s].pool, subnet)
+//@ uninterp ipv4val(s string) mint
+//@ pure inRanges(rs []nets.IPRange, s string) bool = s == ipv4str(ipv4val(s)) && exists r int :: 0 <= r && r < len(rs) && nets.val(rs[r].First) <= ipv4val(s) && ipv4val(s) <= nets.val(rs[r].Last)
+// the facts about a picked IP are stated over the ENTRY state (old): phase 1 does not change the
+// tables or the requested ranges, and this is what the postcondition needs
+//@ pure pickedOK(ci *crdIpam, picked []string, n int, ipranges [][]nets.IPRange, subnet string) bool = (forall j int :: 0 <= j && j < n ==> (let s = picked[j] in old(eligible(ci, s, subnet)))) && (forall j int :: 0 <= j && j < n ==> (let s = picked[j] in old(inRanges(ipranges[j], s)))) && (forall i int, j int :: 0 <= i && i < j && j < n ==> picked[i] != picked[j])
+//@ pure setIs(set sets.String, picked []string, n int) bool = set != nil && fresh(set) && (forall j int :: 0 <= j && j < n ==> picked[j] in set) && (forall m sets.String :: allocated(m) ==> dom(m) == old(dom(m)))
+//@ pure phase1(ci *crdIpam, picked []string, set sets.String, n int, ipranges [][]nets.IPRange, subnet string) bool = inv(ci) && synced(ci) && tablesSame(ci) && storeUnchanged() && faults == old(faults) && ciFieldsSame(ci) && allEntriesSame() && len(picked) == n && pickedOK(ci, picked, n, ipranges, subnet) && setIs(set, picked, n)
+
+//@ func [C08] (*crdIpam).AllocateInSubnetsAndIPRange
+//@   let sub = netstr(nodeSubnet)
+//@   requires inv(ci) && synced(ci) && held[ptr(ci.cacheLock)] == 0
+//@   requires 0 <= attr.Policy && attr.Policy < 65536
+//@   requires forall i int, r int {ipranges[i][r]} :: 0 <= i && i < len(ipranges) && 0 <= r && r < len(ipranges[i]) ==> nets.wfRange(ipranges[i][r])
+//@   ensures [C01,C05] inv(ci)
+//@   ensures [C05:multi-synced-single-fault] old(faults) <= 1 ==> synced(ci)
+//@   ensures [C01:multi-frame] allEntriesSame() && ciFieldsSame(ci)
+//@   ensures [C08:multi-one-per-range] result1 == nil && len(ipranges) > 0 ==> len(result0) == len(ipranges)
+//@   ensures [C08,C06,C09,C01:multi-ith-in-ith-range-free-routable] result1 == nil && len(ipranges) > 0 ==> forall i int :: 0 <= i && i < len(ipranges) ==> (let s = ipstr(result0[i]) in old(inRanges(ipranges[i], s)) && old(eligible(ci, s, sub)) && s in ci.allocatedFIPs && !(s in ci.unallocatedFIPs) && attrApplied(ci.allocatedFIPs[s], key, attr))
+//@   ensures [C08:multi-distinct] result1 == nil && len(ipranges) > 0 ==> forall i int, j int :: 0 <= i && i < j && j < len(ipranges) ==> ipstr(result0[i]) != ipstr(result0[j])
+//@   ensures [C08,C01:multi-others-untouched] result1 == nil && len(ipranges) > 0 ==> forall k string :: !(exists i int :: 0 <= i && i < len(ipranges) && ipstr(result0[i]) == k) ==> ((k in ci.allocatedFIPs) == old(k in ci.allocatedFIPs)) && ((k in ci.unallocatedFIPs) == old(k in ci.unallocatedFIPs)) && ci.allocatedFIPs[k] == old(ci.allocatedFIPs[k]) && ci.unallocatedFIPs[k] == old(ci.unallocatedFIPs[k])
+//@   ensures [C08,C05:multi-failure-leaves-tables] result1 != nil ==> tablesSame(ci)
+//@   ensures [C08,C05:multi-failure-leaves-store-single-fault] result1 != nil && old(faults) <= 1 ==> storeSame()
+// the frame towards callers is not claimed for this function (callers treat it as modifying
+// everything); what it leaves unchanged is stated explicitly in the postconditions above
+//@   modifies all
+// phase 1 (pick one free routable IP per range): only the pick list, the pick set and fresh IP
+// buffers are written, everything else keeps its entry value (inferred frame of the loop cut)
+//@   loop 0,call:walkIPRanges#0/0,call:walkIPRanges#0/1 invariant allocatedIPStrs == nil || fresh(allocatedIPStrs)
+//@   loop 0 invariant len(allocatedIPStrs) == idx && pickedOK(ci, allocatedIPStrs, idx, ipranges, sub) && setIs(allocatedIPSet, allocatedIPStrs, idx)
+//@   loop call:walkIPRanges#0/0,call:walkIPRanges#0/1 invariant len(allocatedIPStrs) == outer_idx && pickedOK(ci, allocatedIPStrs, outer_idx, ipranges, sub) && setIs(allocatedIPSet, allocatedIPStrs, outer_idx) && !allocated && ranges == ipranges[outer_idx] && 0 <= outer_idx && outer_idx < len(ipranges)
+//@   loop call:walkIPRanges#0/1 invariant 0 <= idx && idx < len(ranges) && r == ranges[idx] && last == old(nets.val(r.Last)) && old(nets.val(r.First)) <= first
+// phase 2 (create the objects; roll back on the first failure)
+//@ pure created(k string, key string, attr Attr) bool = StoreDom[k] && StoreKey[k] == key && StorePolicy[k] == attr.Policy && StoreNode[k] == attr.NodeName && StoreUid[k] == attr.Uid
+//@ pure storeSameAt(k string) bool = StoreDom[k] == old(StoreDom[k]) && StoreKey[k] == old(StoreKey[k]) && StorePolicy[k] == old(StorePolicy[k]) && StoreNode[k] == old(StoreNode[k]) && StoreUid[k] == old(StoreUid[k])
+//@   loop 1 invariant faults == old(faults) && len(allocatedIPs) == idx && len(allocatedFips) == idx && (allocatedIPs == nil || fresh(allocatedIPs)) && (allocatedFips == nil || fresh(allocatedFips))
+//@   loop 1 invariant forall j int :: 0 <= j && j < idx ==> created(allocatedIPStrs[j], key, attr)
+//@   loop 1 invariant forall k string :: (forall j int :: 0 <= j && j < idx ==> allocatedIPStrs[j] != k) ==> storeSameAt(k)
+//@   loop 1 invariant forall j int :: 0 <= j && j < idx ==> allocatedFips[j] != nil && fresh(allocatedFips[j])
+//@   loop 1 invariant forall j int :: 0 <= j && j < idx ==> attrApplied(allocatedFips[j], key, attr)
+//@   loop 1 invariant forall j int :: 0 <= j && j < idx ==> allocatedFips[j].IP == old(ci.unallocatedFIPs[allocatedIPStrs[j]].IP) && allocatedFips[j].pool == old(ci.unallocatedFIPs[allocatedIPStrs[j]].pool)
+//@   loop 1 invariant forall j int :: 0 <= j && j < idx ==> allocatedIPs[j] == old(ci.unallocatedFIPs[allocatedIPStrs[j]].IP)
+//@   loop 2 invariant old(faults) <= 1 ==> faults == 0
+//@   loop 2 invariant 0 <= idx && idx <= i && i < len(allocatedIPStrs)
+//@   loop 2 invariant old(faults) <= 1 ==> forall j int :: 0 <= j && j < idx ==> !StoreDom[allocatedIPStrs[j]]
+//@   loop 2 invariant forall j int :: idx <= j && j < i ==> created(allocatedIPStrs[j], key, attr)
+//@   loop 2 invariant forall k string :: (forall j int :: 0 <= j && j < i ==> allocatedIPStrs[j] != k) ==> storeSameAt(k)
+// phase 3 (publish in memory)
+//@   loop 3 invariant forall j int :: 0 <= j && j < idx ==> allocatedIPStrs[j] in ci.allocatedFIPs
+//@   loop 3 invariant forall j int :: 0 <= j && j < idx ==> ci.allocatedFIPs[allocatedIPStrs[j]] == allocatedFips[j]
+//@   loop 3 invariant forall j int :: 0 <= j && j < idx ==> !(allocatedIPStrs[j] in ci.unallocatedFIPs)
+//@   loop 3 invariant forall j int :: idx <= j && j < len(allocatedFips) ==> !(allocatedIPStrs[j] in ci.allocatedFIPs) && allocatedIPStrs[j] in ci.unallocatedFIPs
+//@   loop 3 invariant forall k string :: (forall j int :: 0 <= j && j < idx ==> allocatedIPStrs[j] != k) ==> ((k in ci.allocatedFIPs) == old(k in ci.allocatedFIPs)) && ((k in ci.unallocatedFIPs) == old(k in ci.unallocatedFIPs)) && ci.allocatedFIPs[k] == old(ci.allocatedFIPs[k]) && ci.unallocatedFIPs[k] == old(ci.unallocatedFIPs[k])
+//@   loop 3 invariant ciFieldsSame(ci)
+//@   loop 3 invariant forall m map[string]*FloatingIP :: allocated(m) && m != ci.allocatedFIPs && m != ci.unallocatedFIPs ==> dom(m) == old(dom(m)) && vals(m) == old(vals(m))
